@@ -10,3 +10,44 @@ From CiwV Require Import Sx Acc.C03.
 Theorem C03_sound : forall es stt, C03.acc es = Accept stt -> C03.P_C03 es.
 Proof. exact C03.C03_sound. Qed.
 Print Assumptions C03_sound.
+
+(* ---- T2: the engine model (coq/Engine, tied to /repo by the stepwise correspondence check K2) writes connected journeys.
+   h = all records written so far (the concatenation of the logs of all events); an = the node at which each customer arrived (ghost,
+   read off the arrival events) ---- *)
+From Coq Require Import ZArith List.
+From CiwV Require Import Prelude.
+From CiwV.Engine Require Import State Engine Codec.
+From CiwV.Inv Require Import Journey.
+Import ListNotations.
+Open Scope Z_scope.
+
+(* one executed event / any number of events, for every configuration, every state and history satisfying the invariant, every oracle *)
+Theorem event_step_jrn : forall cf an s s' h, Journey.Jrn cf an s h -> Engine.event_step cf s = Ok (tt, s') ->
+  Journey.Jrn cf (Journey.an_step s an) s' (h ++ log s').
+Proof. exact Journey.event_step_jrn. Qed.
+Print Assumptions event_step_jrn.
+Theorem engine_journey : forall cf ds s h an s' h' an', Journey.Jrn cf an s h -> Journey.run_hist cf s h an ds = Ok (s', h', an') ->
+  Codec.run_many cf s ds = Ok s' /\ (exists t, h' = h ++ t) /\ Journey.Jrn cf an' s' h'.
+Proof. exact Journey.engine_journey. Qed.
+Print Assumptions engine_journey.
+
+(* in the words of the property *)
+Theorem Jrn_means : forall cf an s h, Journey.Jrn cf an s h ->
+  (forall i r l, Journey.recs_of i h = r :: l -> an i = Some (r_node r)) /\
+  (forall i l1 r1 r2 l2, Journey.recs_of i h = l1 ++ r1 :: r2 :: l2 ->
+     r_type r1 = 0 /\ r_type r2 = 0 /\ r_dest r1 = Some (r_node r2) /\ r_exit r1 = r_arr r2) /\
+  (forall r, In r h -> r_type r <> 0 -> Journey.recs_of (r_id r) h = [r]) /\
+  (forall k nd i, nth_error (nodes s) k = Some nd -> In i (Engine.all_individuals nd) ->
+     exists x, Engine.find_ind i (inds s) = Some x /\ i_node x = Some (Z.of_nat k + 1) /\ i_nrec x = zlen (Journey.recs_of i h) /\
+       ((Journey.recs_of i h = [] /\ an i = Some (Z.of_nat k + 1)) \/
+        exists l r, Journey.recs_of i h = l ++ [r] /\ r_type r = 0 /\ r_dest r = Some (Z.of_nat k + 1) /\ r_exit r = i_arr x)) /\
+  (forall i, 1 <= i <= a_created (arr s) ->
+     (In i (exit_ids s) <-> exists l r, Journey.recs_of i h = l ++ [r] /\ (r_dest r = Some (-1) \/ r_type r <> 0))) /\
+  (forall r, In r h -> r_id r <= a_created (arr s)).
+Proof. exact Journey.Jrn_means. Qed.
+Print Assumptions Jrn_means.
+
+(* the executable test used by the correspondence check on the real engine's snapshots WITH the real record history *)
+Theorem jrn_b_sound : forall cf an s h, Journey.jrn_b cf an s h = true -> Journey.Jrn cf an s h.
+Proof. exact Journey.jrn_b_sound. Qed.
+Print Assumptions jrn_b_sound.
